@@ -81,6 +81,18 @@ def _sid(E, v):
     return E.to_sv(v, TStr).t
 
 
+def _crash_point(E, what, node):
+    """a crash may happen right after this file-system mutation: the function's crash invariant (a statement about the
+    disk only) is an obligation here, so it holds at every prefix of the handler's effect sequence"""
+    c = E.frames[0].contract if E.frames else None
+    if c is None or not c.crash_invariant or E.spec_mode:
+        return
+    env = dict(E.frames[0].env)
+    env.update(getattr(E, "entry_env", {}))
+    for inv in c.crash_invariant:
+        E.oblige("crash_prefix", E.spec_bool(inv, env, old=True), getattr(node, "lineno", 0), "after %s: %s" % (what, inv))
+
+
 @effect("toolkit/logger/logger.py:getSSELogger", "G1: logging has no effect on program state and does not raise")
 def _logger(E, a, kw, fr, node):
     return Opaque("logger")
@@ -99,6 +111,7 @@ def _exists(E, a, kw, fr, node):
 @effect(SFM + "create_sid_folder", "D1: mkdir(exist_ok=True)")
 def _mkdir(E, a, kw, fr, node):
     _put(E, "srv_dir", _sid(E, a[0]), z3.IntVal(1))
+    _crash_point(E, "create_sid_folder", node)
 
 
 def _guarded_put(E, name, sid, val):
@@ -111,6 +124,7 @@ def _guarded_put(E, name, sid, val):
 @effect(SFM + "write_service_config", "D1: writes <sid>/config.json when the directory exists")
 def _wcfg(E, a, kw, fr, node):
     _guarded_put(E, "srv_cfg", _sid(E, a[0]), E.to_sv(a[1], TBytes).t)
+    _crash_point(E, "write_service_config", node)
 
 
 @effect(SFM + "write_service_meta", "D1: replaces <sid>/service_meta atomically when the directory exists")
@@ -118,11 +132,13 @@ def _wmeta(E, a, kw, fr, node):
     st = E.get_subscript(a[1], "state", node, fr)
     from pyvc.engine import z3_int
     _guarded_put(E, "srv_meta", _sid(E, a[0]), z3_int(st))
+    _crash_point(E, "write_service_meta", node)
 
 
 @effect(SFM + "write_encrypted_database", "D1: writes <sid>/edb when the directory exists")
 def _wedb(E, a, kw, fr, node):
     _guarded_put(E, "srv_edb", _sid(E, a[0]), E.to_sv(a[1], TBytes).t)
+    _crash_point(E, "write_encrypted_database", node)
 
 
 @effect(SS + "Service.send_message", "T1: the message is handed to the websocket (ghost trace `sent`)")
@@ -169,10 +185,14 @@ SRV_GHOSTS = ["srv_dir", "srv_meta", "srv_cfg", "srv_edb", "sent"]
 INV = ["(self.sid in srv_meta) == (%s != 0)" % ST_, "implies(%s != 0, srv_meta[self.sid] == %s)" % (ST_, ST_),
        "implies(%s != 0, self.sid in srv_dir)" % ST_, "implies(%s != 0, self.sid in srv_cfg)" % ST_,
        "implies(%s == 2, self.sid in srv_edb)" % ST_]
+# crash invariant (a statement about the disk only): whatever prefix of a handler's file-system mutations has happened, the
+# recorded state never promises a file that is not there -- this is what the loader's precondition DISK_OK needs
+SRV_CRASH = ["implies(self.sid in srv_meta, 0 < srv_meta[self.sid] and srv_meta[self.sid] <= 2 and self.sid in srv_dir and self.sid in srv_cfg)",
+             "implies(self.sid in srv_meta and srv_meta[self.sid] == 2, self.sid in srv_edb)"]
 UNCHANGED = ["srv_meta == old(srv_meta)", "srv_cfg == old(srv_cfg)", "srv_edb == old(srv_edb)", "srv_dir == old(srv_dir)"]
 REFUSED = UNCHANGED + ["%s == old(%s)" % (ST_, ST_), "len(sent) == len(old(sent)) + 1", "not reply_ok(sent[len(sent) - 1][1])"]
 
-contract(SV_ + ".handle_upload_config", params=dict(self=SVT, config_bytes=TBytes, raw_msg_dict=TAny), modifies=["self"],
+contract(SV_ + ".handle_upload_config", crash_invariant=SRV_CRASH, params=dict(self=SVT, config_bytes=TBytes, raw_msg_dict=TAny), modifies=["self"],
          requires=INV, locals={"config": TBytes},
          raises={"ValueError": dict(when="old(%s) != 0" % ST_, iff=True)},
          raise_ensures={"ValueError": REFUSED + ["sent[len(sent) - 1][0] == 'config'"]},
@@ -180,7 +200,7 @@ contract(SV_ + ".handle_upload_config", params=dict(self=SVT, config_bytes=TByte
                         "srv_meta == dput(old(srv_meta), self.sid, 1)", "srv_edb == old(srv_edb)",
                         "len(sent) == len(old(sent)) + 1", "sent[len(sent) - 1][0] == 'config'", "reply_ok(sent[len(sent) - 1][1])"],
          no_runtime=True, modifies_ghost=SRV_GHOSTS, props=["C10", "C13", "C09"])
-contract(SV_ + ".handle_upload_encrypted_database", params=dict(self=SVT, edb_bytes=TBytes, raw_msg_dict=TAny), modifies=["self"],
+contract(SV_ + ".handle_upload_encrypted_database", crash_invariant=SRV_CRASH, params=dict(self=SVT, edb_bytes=TBytes, raw_msg_dict=TAny), modifies=["self"],
          requires=INV,
          raises={"ValueError": dict(when="old(%s) != 1" % ST_, iff=True)},
          raise_ensures={"ValueError": REFUSED + ["sent[len(sent) - 1][0] == 'upload_edb'"]},
@@ -188,13 +208,13 @@ contract(SV_ + ".handle_upload_encrypted_database", params=dict(self=SVT, edb_by
                         "srv_meta == dput(old(srv_meta), self.sid, 2)", "srv_cfg == old(srv_cfg)",
                         "len(sent) == len(old(sent)) + 1", "sent[len(sent) - 1][0] == 'upload_edb'", "reply_ok(sent[len(sent) - 1][1])"],
          no_runtime=True, modifies_ghost=SRV_GHOSTS, props=["C10", "C13", "C09"])
-contract(SV_ + ".handle_search_token", params=dict(self=SVT, token_bytes=TBytes, raw_msg_dict=TPyDict(dict(token_digest=TBytes))),
+contract(SV_ + ".handle_search_token", crash_invariant=SRV_CRASH, params=dict(self=SVT, token_bytes=TBytes, raw_msg_dict=TPyDict(dict(token_digest=TBytes))),
          modifies=["self"], requires=INV,
          raises={"ValueError": dict(when="old(%s) != 2" % ST_, iff=True)},
          raise_ensures={"ValueError": REFUSED + ["sent[len(sent) - 1][0] == 'result'"]},
          ensures=INV + UNCHANGED + ["%s == 2" % ST_, "len(sent) == len(old(sent)) + 1", "sent[len(sent) - 1][0] == 'result'"],
          no_runtime=True, modifies_ghost=SRV_GHOSTS, props=["C10", "C09"])
-contract(SV_ + ".close_service", params=dict(self=SVT), modifies=["self"], requires=INV,
+contract(SV_ + ".close_service", crash_invariant=SRV_CRASH, params=dict(self=SVT), modifies=["self"], requires=INV,
          ensures=INV + UNCHANGED + ["%s == old(%s)" % (ST_, ST_), "sent == old(sent)"], no_runtime=True, modifies_ghost=SRV_GHOSTS, props=["C10", "C13"])
 
 
@@ -245,22 +265,26 @@ def _as_bytes(E, v, what):
 def _c_wmeta(E, a, kw, fr, node):
     from pyvc.engine import z3_int
     _cput(E, "cli_meta", _sid(E, a[0]), z3_int(E.get_subscript(a[1], "state", node, fr)))
+    _crash_point(E, "write_service_meta", node)
 
 
 @effect(CFM + "write_key", "D1: writes <sid>/key")
 def _c_wkey(E, a, kw, fr, node):
     _cput(E, "cli_key", _sid(E, a[0]), _as_bytes(E, a[1], "key_bytes").t)
+    _crash_point(E, "write_key", node)
 
 
 @effect(CFM + "write_encrypted_database", "D1: writes <sid>/edb")
 def _c_wedb(E, a, kw, fr, node):
     _cput(E, "cli_edb", _sid(E, a[0]), _as_bytes(E, a[1], "edb_bytes").t)
+    _crash_point(E, "write_encrypted_database", node)
 
 
 @effect(CFM + "delete_encrypted_database", "D1: unlinks <sid>/edb (missing_ok)")
 def _c_dedb(E, a, kw, fr, node):
     d = E.ghostv["cli_edb"]
     E.ghostv["cli_edb"] = SV(z3.Store(d.t, _sid(E, a[0]), sort(TOpt(TBytes)).none), d.ty)
+    _crash_point(E, "delete_encrypted_database", node)
 
 
 @effect(CFM + "read_key", "D1: reads <sid>/key")
@@ -296,6 +320,8 @@ OCST = "old(self.service_meta['state'])"
 CINV = ["flag(%s, 0) == (self.sid in cli_meta)" % CST, "implies(self.sid in cli_meta, cli_meta[self.sid] == %s)" % CST,
         "flag(%s, 2) == (self.sid in cli_key)" % CST, "implies(flag(%s, 3) and not flag(%s, 4), self.sid in cli_edb)" % (CST, CST),
         "0 <= %s" % CST, "%s < 32" % CST]
+CLI_CRASH = ["implies(self.sid in cli_meta and flag(cli_meta[self.sid], 2), self.sid in cli_key)",
+             "implies(self.sid in cli_meta and flag(cli_meta[self.sid], 3) and not flag(cli_meta[self.sid], 4), self.sid in cli_edb)"]
 C_UNCHANGED = ["cli_meta == old(cli_meta)", "cli_cfg == old(cli_cfg)", "cli_key == old(cli_key)", "cli_edb == old(cli_edb)",
                "%s == %s" % (CST, OCST)]
 
@@ -304,28 +330,28 @@ def _only_bit(b):
     return ["flag(%s, %d)" % (CST, b)] + ["flag(%s, %d) == flag(%s, %d)" % (CST, o, OCST, o) for o in range(5) if o != b]
 
 
-contract(CSV + ".handle_create_key", params=dict(self=CSVT), modifies=["self"], requires=CINV,
+contract(CSV + ".handle_create_key", crash_invariant=CLI_CRASH, params=dict(self=CSVT), modifies=["self"], requires=CINV,
          raises={"ValueError": dict(when="flag(%s, 2) or not flag(%s, 0)" % (OCST, OCST), iff=True)},
          raise_ensures={"ValueError": C_UNCHANGED},
          ensures=CINV + _only_bit(2) + ["not (self.sid in old(cli_key))",        # a key is only ever written where none existed
                                         "cli_meta == dput(old(cli_meta), self.sid, %s)" % CST, "cli_edb == old(cli_edb)",
                                         "cli_cfg == old(cli_cfg)", "self.sid == old(self.sid)"],
          no_runtime=True, modifies_ghost=["cli_meta", "cli_key"], props=["C11", "C13"])
-contract(CSV + ".handle_encrypt_database", params=dict(self=CSVT, database=TAny), modifies=["self"], requires=CINV,
+contract(CSV + ".handle_encrypt_database", crash_invariant=CLI_CRASH, params=dict(self=CSVT, database=TAny), modifies=["self"], requires=CINV,
          raises={"ValueError": dict(when="flag(%s, 3) or not flag(%s, 0) or not flag(%s, 2)" % (OCST, OCST, OCST), iff=True)},
          raise_ensures={"ValueError": C_UNCHANGED},
          ensures=CINV + _only_bit(3) + ["cli_key == old(cli_key)", "self.sid in cli_edb",
                                         "cli_meta == dput(old(cli_meta), self.sid, %s)" % CST, "cli_cfg == old(cli_cfg)",
                                         "self.sid == old(self.sid)"],
          no_runtime=True, modifies_ghost=["cli_meta", "cli_edb"], props=["C11", "C13"])
-contract(CSV + ".handle_upload_config_echo", params=dict(self=CSVT, content_bytes=TBytes), modifies=["self"],
+contract(CSV + ".handle_upload_config_echo", crash_invariant=CLI_CRASH, params=dict(self=CSVT, content_bytes=TBytes), modifies=["self"],
          requires=CINV + ["flag(%s, 0)" % CST],
          ensures=CINV + ["implies(not reply_ok(content_bytes), %s == %s and cli_meta == old(cli_meta))" % (CST, OCST),
                          "implies(reply_ok(content_bytes), flag(%s, 1) and cli_meta == dput(old(cli_meta), self.sid, %s))" % (CST, CST)] +
                  ["flag(%s, %d) == flag(%s, %d)" % (CST, o, OCST, o) for o in (0, 2, 3, 4)] +
                  ["cli_key == old(cli_key)", "cli_edb == old(cli_edb)", "cli_cfg == old(cli_cfg)", "self.sid == old(self.sid)"],
          no_runtime=True, modifies_ghost=["cli_meta"], props=["C11", "C13", "C09"])
-contract(CSV + ".handle_upload_encrypted_database_echo", params=dict(self=CSVT, content_bytes=TBytes), modifies=["self"],
+contract(CSV + ".handle_upload_encrypted_database_echo", crash_invariant=CLI_CRASH, params=dict(self=CSVT, content_bytes=TBytes), modifies=["self"],
          requires=CINV + ["flag(%s, 0)" % CST],
          ensures=CINV + ["implies(not reply_ok(content_bytes), %s == %s and cli_meta == old(cli_meta) and cli_edb == old(cli_edb))" % (CST, OCST),
                          "implies(reply_ok(content_bytes), flag(%s, 4) and cli_meta == dput(old(cli_meta), self.sid, %s) "
